@@ -178,7 +178,9 @@ def history(rnd, prog, profile, length):
         elif k == "eval_fn":
             if funcs and rnd.random() > bad:
                 f, n = rnd.choice(funcs)
-                ops.append({"op": "eval_fn", "name": f, "args": [{"t": "int", "v": rnd.randint(0, 4)} for _ in range(n)]})
+                # (a truth value handed over by the host stays a truth value: printed "true", returned as a bool - seeded change c16-4)
+                ops.append({"op": "eval_fn", "name": f, "args": [{"t": "bool", "v": rnd.random() < 0.5} if rnd.random() < 0.3 else
+                                                                 {"t": "int", "v": rnd.randint(0, 4)} for _ in range(n)]})
             else:
                 ops.append({"op": "eval_fn", "name": rnd.choice(["nosuch", "f99"]), "args": []})
         elif k == "reset":
